@@ -111,6 +111,12 @@ class Multiplication:
     cpy.connect(self)
     for l in segment.dovetails + segment.containments:
       lc = l.clone()
+      if not gfapy.is_placeholder(lc.name):
+        # the identifier of the edge cannot be used again for its copy
+        if lc.record_type == "E":
+          lc.eid = gfapy.Placeholder()
+        else:
+          lc.set("ID", None)
       if lc.from_segment == segment.name:
         lc.from_segment = clone_name
       if lc.to_segment == segment.name:
